@@ -59,6 +59,8 @@ CONFIG = dict(
          "back-end issuer: inside its mailbox run) with a second client that keeps reading, then reads again (two such cases in the deterministic sweep of "
          "every run + random ones); a write on a client's connection failing with a timeout net.Error (1-3 times in a row, optionally after half the packet) while later packets are "
          "queued behind it (the session must end or go on in order; the model closes the connection once the client's stream is consumed); "
+         "payload sizes mixed within one burst (mostly small; 4000-4097 bytes around a 4 KB boundary, 5 KB, 8 KB, 64 KB) for pushes and responses, towards "
+         "stalled and reading clients (ten such cases in the sweep of every run; ids sit in the payload head, independent of size); "
          "runs with GOMAXPROCS 8 and 1. Each op runs to quiescence (synctest.Wait) and reports the issue logs (per worker in Post "
          "order, per service goroutine in execution order) and per client the arrival stream; corpus (the D8 witness) first. Non-trivial = an op that "
          "produced issue or arrival records; distinct = distinct (op, observation) pairs.",
